@@ -17,6 +17,8 @@ REBASED = {
     "C19-ranger-wrap": "increment-then-test in ranger.Next re-expressed on the done-flag iterator",
     "C20-truncate-bytelen": "byte-length early return re-applied to the rewritten Truncate",
     "C01-r4a-apostrophe-fastpath": "the same fast path re-applied after the nil *time.Time fix touched the neighbouring case of the sink",
+    "C03-r4a-readstring-backslash-eof": "the same unconditional escape re-applied after the consecutive-escapes fix turned the `if` into a loop",
+    "C03-readstring-backslash": "the same unconditional escape loop re-applied after the consecutive-escapes fix",
     "C02-r3-bstring-backslash": "the same merge of readString/readBString re-applied after the comment-tag fix touched the neighbouring lines",
     "C18-r4a-bare-hash-swallows-line": "the same extra readChar re-applied after the comment-tag fix added a guard at the top of the # case",
 }
